@@ -228,6 +228,8 @@ func startFixture(base string, pin string, kinds []string, nExtra int, stored []
 	return f, nil
 }
 
+var stringTokens = []string{"", " HTTP/1.0", " speaks HTTP/1.0 and HTTP/1.0", " HTTP/1.1 200 OK", " EVENT/1.0", "\r\n\r\n", " Content-Length: 3", ` \u003c`, " <&>", ` "q" \`, " é😀\u2028"}
+
 // newValue draws a value of the characteristic's type and range that differs from cur.
 func newValue(c *chr, rnd *rand.Rand, uniq string) interface{} {
 	for {
@@ -241,7 +243,8 @@ func newValue(c *chr, rnd *rand.Rand, uniq string) interface{} {
 		case "float":
 			v = c.lo + 0.5*float64(rnd.Intn(int((c.hi-c.lo)*2)+1))
 		default:
-			v = fmt.Sprintf("%s-%d", uniq, rnd.Intn(1000000))
+			// most strings carry a token of the protocols an EVENT travels in, or characters an encoder escapes
+			v = fmt.Sprintf("%s-%d%s", uniq, rnd.Intn(1000000), stringTokens[rnd.Intn(len(stringTokens))])
 		}
 		if !sameJSON(v, c.cur) {
 			return v
